@@ -57,6 +57,24 @@ def run(rep, facts, tier):
                 ok = False
     rep.check(ok, 'R02.1', 'handle_reader_submessage/acknack-forwarded', 'AckNack => acknack_sender.try_send((source prefix, AckSubmessage::AckNack(..)))',
               'a received ACKNACK is not always forwarded (with the source guid prefix) on the acknack channel: the writer never learns what is missing', hr.where())
+    # the other request a Reader can make (raised F31, a known finding): a sample of which some fragments have arrived is left out of the ACKNACK set and asked for by NACKFRAG
+    # (C03 R03.9) - which nobody listens to. After the copies the Writer sends of its own accord are lost, nothing asks for the fragment again
+    nf = [(s_, t_) for s_, t_, cond, lab in primary_edges(hr, list(switch_edges(hr, fx, og))) if lab == 'NackFrag']
+    snd_nf = []
+    for bb, t in hr.calls():
+        if callee_res(t).endswith('try_send') and has_field(og.of_operand(t['args'][0], bb, 'term'), 'acknack_sender'):
+            v = og.of_operand(t['args'][1], bb, 'term')
+            if term_has(v, lambda x: x[0] == 'agg' and str(x[1]).endswith('AckSubmessage::NackFrag')) and has_field(v, 'source_guid_prefix'):
+                snd_nf.append((bb, 'term'))
+    okn = bool(nf) and bool(snd_nf)
+    for s_, t_ in nf:
+        for r in hr.return_blocks():
+            if P.can_reach((t_, 0), (r, 'term'), avoid_pos=snd_nf):
+                okn = False
+    rep.check(okn, 'R02.1', 'handle_reader_submessage/nackfrag-forwarded', 'NackFrag => acknack_sender.try_send((source prefix, AckSubmessage::NackFrag(..)))',
+              'a received NACKFRAG is dropped by the MessageReceiver: the Reader asks for the missing fragments of a partially received sample by NACKFRAG only (it leaves the sample out '
+              'of its ACKNACK set), so once the copies the Writer sends unasked are lost, the fragment is never sent again and the pair keeps exchanging HEARTBEAT / ACKNACK / NACKFRAG '
+              'for ever', hr.where(nf[0][0]) if nf else hr.where())
     ha = fx.find('rtps::dp_event_loop::DPEventLoop::handle_writer_acknack_action')
     rep.analysed(ha)
     og = Origins(ha, summaries=True)
